@@ -152,6 +152,7 @@ struct Seams {
 };
 extern Seams g;
 void ledger_reset();
+extern bool registry_global;        // allocations made inside the type registry belong to the process, not to the run (set once by worlds that do not examine the registry)
 size_t ledger_live();               // number of live SUT-allocated blocks
 size_t ledger_live_bytes();
 std::string ledger_describe(size_t max = 4); // sizes + serials, never addresses
